@@ -457,7 +457,7 @@ def report(prop, spec, tier, runs, findings, kf, t0, extra, status_extra):
     solver_us = 0
     fn_under_contract = set()
     clause_count = 0
-    trusted, assumed_dep, not_verified, desugar, dropped = [], ['every unit: std ASCII classification predicates of char / u8 as documented (contracts/std_specs.rs, 20 assume_specification items; the Unicode predicates exact on ASCII, uninterpreted beyond)',
+    trusted, assumed_dep, not_verified, desugar, dropped = [], ['every unit: std ASCII classification predicates of char / u8 as documented (contracts/std_specs.rs, %d assume_specification items, counted on this run: also slice `contains`, `Vec::dedup`, `Vec as AsRef<[T]>`; the Unicode predicates exact on ASCII, uninterpreted beyond)' % open(os.path.join(VERIF, 'contracts', 'std_specs.rs')).read().count('assume_specification'),
                                                             'every unit: stand-ins for the `str` pattern methods with a literal pattern and the whitespace trims, as documented by std (contracts/std_str_specs.rs, 15 external_body functions that call the std method; only reached through rule D32, i.e. when the code of /repo calls such a method)'], [], [], []
     assumed_parser = []
     pinned = []
